@@ -363,6 +363,14 @@ def run(ctx):
                 for trail in (0, 1, 2, 3):
                     ctx.guarded(check_case, {'ast': R._fix(ast), 'choice': [1], 'spell': 0, 'path': pth, 'lead': lead, 'trail': trail})
         ctx.count('edge_slash_grid')
+        # literals holding a backslash / characters a rule syntax might treat as escapes; wildcard names an API might use for its own parameters
+        for ast, pth in (([lit('/dir\\sub/'), W('n', 'int')], '/dir\\sub/007'), ([lit('/files/'), W('p', 'path'), lit('\\.bak/'), W('n', 'int')], '/files/a/b\\.bak/7'),
+                         ([lit('/a\\'), W('x'), lit('\\')], '/a\\tom\\'), ([lit('/q/'), W('query'), lit('/page/'), W('n', 'int')], '/q/tom/page/2'),
+                         ([lit('/'), W('self'), lit('/'), W('method'), lit('/'), W('args'), lit('/'), W('kw')], '/a/b/c/d'), ([lit('/'), W('rule'), lit('/'), W('path', 'path')], '/r/a/b'),
+                         ([lit('/'), W('anchor'), W('name', 'int')], '/x12')):
+            ctx.guarded(check_case, {'ast': R._fix(ast), 'choice': [1], 'spell': 0, 'path': pth})
+            ctx.guarded(check_case, {'ast': R._fix(ast), 'choice': [3], 'spell': 1, 'path': pth})
+        ctx.count('backslash_and_parameter_name_grid')
         for ast, paths in (([lit('/left-'), ['w', 'x', 'float', None]], ['/left-2.5', '/left-7']),
                            ([lit('/p/'), ['w', 'p', 'path', None], lit('/end/'), ['w', None, 'int', None]], ['/p/a/b/end/12', '/p/x/end/7']),
                            ([lit('/'), ['w', 'a', None, None], lit('/'), ['w', 'b', 're', '[a-c]+'], lit('.html')], ['/tom/abc.html', '/é/a.html'])):
